@@ -2,7 +2,7 @@ package rules
 
 func init() {
 	property(&Property{ID: "C09",
-		Rules:       []string{"S1", "S2", "S3", "N3", "N1"},
+		Rules:       []string{"S1", "S2", "S3", "N3", "N1", "N2"},
 		Explanation: "tbd",
 		Assumptions: []string{"tbd"},
 	})
